@@ -154,6 +154,9 @@ def run (st : St) (t : List String) : String × St :=
     -- `handleStream` is atomic per registration (the lookup-or-create of the topic happens under one lock): however the
     -- registrations interleave, the first creates the topic and every later one joins it (c11_registry_isolation, c01_*)
     ("ok probe=ok", { st with fresh := st.fresh + nat! topics })
+  | ["lazy", _] =>
+    -- c17_other_topic_progress: what topic A's subscribers leave unread holds up topic A only
+    ("before=ok probe=ok", { st with fresh := st.fresh + 2 })
   | ["mute"] =>
     -- c17_lock_holder_never_blocked: no answer is sent while the lock is held, so a peer that takes no answer holds nobody up
     ("Ok probe=ok other-names=ok", { st with fresh := st.fresh + 3 })
